@@ -220,6 +220,40 @@ def _shard_main(modname, tier, kind, shard, nshards, seed, n_examples, deadline,
         raise
 
 
+class _PipeTimeout(Exception):
+    pass
+
+
+class _PipeReader:
+    """readline()/read(n) over a pipe fd; raises _PipeTimeout when nothing arrives for `idle` seconds."""
+    def __init__(self, fd, idle):
+        self.fd, self.idle, self.buf, self.eof = fd, idle, b"", False
+
+    def _fill(self):
+        import select
+        ready, _, _ = select.select([self.fd], [], [], self.idle)
+        if not ready:
+            raise _PipeTimeout()
+        chunk = os.read(self.fd, 1 << 16)
+        if not chunk:
+            self.eof = True
+        self.buf += chunk
+
+    def readline(self):
+        while b"\n" not in self.buf and not self.eof:
+            self._fill()
+        k = self.buf.find(b"\n")
+        k = len(self.buf) if k < 0 else k + 1
+        line, self.buf = self.buf[:k], self.buf[k:]
+        return line
+
+    def read(self, n):
+        while len(self.buf) < n and not self.eof:
+            self._fill()
+        out, self.buf = self.buf[:n], self.buf[n:]
+        return out
+
+
 def run_in_child(mod, cases, timeout=900):
     """Evaluate cases in a forked child (one child for the whole list; a new one after a crash) so that a
     case that kills the interpreter cannot kill the check itself.  Returns outcomes in order."""
@@ -243,21 +277,33 @@ def run_in_child(mod, cases, timeout=900):
                 os._exit(0)
         os.close(w)
         last_started = None
-        with os.fdopen(r, "rb") as f:
+        hung = False
+        rd = _PipeReader(r, CASE_TIMEOUT_S + 90)
+        try:
             while True:
-                line = f.readline()
+                line = rd.readline()
                 if not line:
                     break
                 if line.startswith(b"S"):
                     last_started = int(line[1:])
                 elif line.startswith(b"R"):
                     i, n = line[1:].split()
-                    blob = f.read(int(n))
-                    f.readline()
+                    blob = rd.read(int(n))
+                    rd.readline()
                     results[int(i)] = json.loads(blob)
+        except _PipeTimeout:
+            # a case stuck inside native code never sees the alarm
+            os.kill(pid, signal.SIGKILL)
+            hung = True
+        finally:
+            os.close(r)
         _, status = os.waitpid(pid, 0)
         done = [i for i in range(start, len(cases)) if results[i] is not None]
-        if last_started is not None and results[last_started] is None:
+        if hung and last_started is not None and results[last_started] is None:
+            results[last_started] = viol("hang", "case did not finish within %d s (stuck outside the interpreter; the child was killed)"
+                                         % (CASE_TIMEOUT_S + 90))
+            start = last_started + 1
+        elif last_started is not None and results[last_started] is None:
             san = san_report(pid)
             code = -(status & 0x7f) if (status & 0x7f) else (status >> 8)
             results[last_started] = viol("crash:" + (san[0] if san else "exit%s" % code),
@@ -373,14 +419,24 @@ class Campaign:
             for item in running:
                 p, respath, curpath, kind, shard = item
                 if p.is_alive():
+                    # a case stuck inside native code never sees the alarm: the marker of the running case goes stale
+                    try:
+                        stale = time.time() - os.path.getmtime(curpath)
+                    except OSError:
+                        stale = 0
+                    if stale > CASE_TIMEOUT_S + 90:
+                        p.kill()
+                        p.join()
+                        self._collect(p, respath, curpath, kind, shard, hung=True)
+                        continue
                     still.append(item)
                     continue
                 p.join()
                 self._collect(p, respath, curpath, kind, shard)
             running = still
 
-    def _collect(self, p, respath, curpath, kind, shard):
-        if os.path.exists(respath):
+    def _collect(self, p, respath, curpath, kind, shard, hung=False):
+        if os.path.exists(respath) and not hung:
             with open(respath, "rb") as f:
                 res = pickle.load(f)
             os.unlink(respath)
@@ -400,8 +456,11 @@ class Campaign:
                     case = None
         self.crashes.append((p.exitcode, case))
         san = san_report(p.pid)
-        out = viol("crash:" + (san[0] if san else "exit%s" % p.exitcode),
-                   "worker process died (exit code %s) while running this case\n%s" % (p.exitcode, san[1] if san else ""))
+        if hung:
+            out = viol("hang", "case did not finish within %d s (stuck outside the interpreter; the worker was killed)" % (CASE_TIMEOUT_S + 90))
+        else:
+            out = viol("crash:" + (san[0] if san else "exit%s" % p.exitcode),
+                       "worker process died (exit code %s) while running this case\n%s" % (p.exitcode, san[1] if san else ""))
         if case is not None:
             self.total.record(self.mod, case, out)
         else:
